@@ -137,6 +137,9 @@ func main() {
 				fmt.Printf("%s: %d failed obligation(s)\n", id, len(keys))
 				for _, k := range keys {
 					fmt.Println("  FAIL " + firstLine(k))
+					if strings.Contains(k, "analysis-panic") && os.Getenv("L4V_DEBUG") != "" {
+						fmt.Println(k)
+					}
 				}
 				continue
 			}
